@@ -1,3 +1,4 @@
+#![recursion_limit = "2048"]
 // Family runner: the generated parsers of one corpus family behind a dispatch table.
 mod cases {
     include!(concat!(env!("OUT_DIR"), "/cases.rs"));
